@@ -9,11 +9,11 @@
 (***************************************************************************)
 EXTENDS SDict, Json, IOUtils
 
-VARIABLES tid, l, tr     \* tr: the events of trace tid, read once in TInit (TLC re-evaluates
+VARIABLES tid, l, nrej, tr     \* tr: the events of trace tid, read once in TInit (TLC re-evaluates
                          \* JsonDeserialize on every reference, so TNext must not mention it)
 
-tvars == <<order, vals, op, res, tid, l, tr>>
-TView == <<order, vals, tid, l>>
+tvars == <<order, vals, op, res, tid, l, tr, nrej>>
+TView == <<order, vals, tid, l, nrej>>
 
 LoggedOrder(ev) == [i \in 1..Len(ev.st) |-> ev.st[i][1]]
 LoggedVals(ev)  == [k \in {ev.st[i][1] : i \in 1..Len(ev.st)} |->
@@ -23,6 +23,7 @@ TInit == \E f \in {JsonDeserialize(IOEnv.TRACE_FILE)} :
          /\ tid \in 1..Len(f)
          /\ tr = f[tid]
          /\ l = 1
+         /\ nrej = 0
          /\ order = <<>>
          /\ vals = [x \in {} |-> 0]
          /\ op = [name |-> "init"]
@@ -35,6 +36,8 @@ Clause(ev, outs, lo, lv) ==
     ELSE IF ~\E o \in outs : o.order = lo /\ o.vals = lv THEN "content_not_allowed"
     ELSE "result_and_state_not_jointly_allowed"
 
+\* Single pass: a step that is not allowed by the model prints one REJECT line naming the clause and
+\* the validation re-synchronises on the logged state, so every later event is still judged.
 TNext ==
     /\ l <= Len(tr)
     /\ LET ev   == tr[l]
@@ -42,13 +45,11 @@ TNext ==
            lv   == LoggedVals(ev)
            outs == Outcomes(Cur, ev)
            good == \E o \in outs : o.res = ev.r /\ o.order = lo /\ o.vals = lv
-       IN IF good
-          THEN /\ order' = lo /\ vals' = lv /\ op' = [name |-> ev.name] /\ res' = ev.r
-               /\ l' = l + 1
-               /\ (l = Len(tr) => PrintT(<<"ACCEPT", tid>>))
-          ELSE /\ PrintT(<<"REJECT", tid, l, Clause(ev, outs, lo, lv)>>)
-               /\ l' = Len(tr) + 1
-               /\ UNCHANGED <<order, vals, op, res>>
+       IN /\ ~good => PrintT(<<"REJECT", tid, l, Clause(ev, outs, lo, lv)>>)
+          /\ order' = lo /\ vals' = lv /\ op' = [name |-> ev.name] /\ res' = ev.r
+          /\ l' = l + 1
+          /\ nrej' = nrej + (IF good THEN 0 ELSE 1)
+          /\ (l = Len(tr) => PrintT(<<IF nrej' = 0 THEN "ACCEPT" ELSE "DONE", tid, nrej'>>))
     /\ UNCHANGED <<tid, tr>>
 
 TSpec == TInit /\ [][TNext]_tvars
